@@ -46,6 +46,7 @@ def wf_attr(a):
         if kind != 1: return 'attribute %d not held as Bin' % code
         if any(not (0 <= x < 256) for x in p): return 'byte outside u8'
         n = len(p)
+        if n > 65535: return 'value of %d bytes is longer than an attribute can carry' % n
         if code == AS_PATH and not wf_as_path(p): return 'AS_PATH segments malformed'
         if code == NEXTHOP and n not in (4, 16): return 'NEXT_HOP length %d' % n
         if code == ATOMIC and n != 0: return 'ATOMIC_AGGREGATE with a value'
@@ -59,6 +60,7 @@ def wf_attr(a):
     if kind != 2: return 'unknown attribute %d not held opaque' % code
     if flags & 0xC0 != 0xC0: return 'unknown attribute %d stored without optional+transitive' % code
     if any(not (0 <= x < 256) for x in p): return 'byte outside u8'
+    if len(p) > 65535: return 'value longer than an attribute can carry'
     return None
 
 # ---------------------------------------------------------------- rendering API values as Gallina
@@ -91,7 +93,9 @@ def api_to_coq(x):
     if t == 6: return '(ALocalPref %s)' % cN(x[1])
     if t == 7: return 'AAtomicAggregate'
     if t == 8: return '(AAggregator %s %s)' % (cN(x[1]), cstr(x[2]))
-    if t == 9: return '(ACommunities %s)' % clist([cN(n) for n in x[1]])
+    if t == 9:
+        if x[1] and x[1][0] == 'rep': return '(ACommunities (repeat %s %d))' % (cN(x[1][1]), x[1][2])
+        return '(ACommunities %s)' % clist([cN(n) for n in x[1]])
     if t == 10: return '(AOriginatorId %s)' % cstr(x[1])
     if t == 11: return '(AClusterList %s)' % clist([cstr(s) for s in x[1]])
     if t == 14: return '(AExtCommunities %s)' % clist([extcom_to_coq(e) for e in x[1]])
@@ -300,7 +304,11 @@ class Prop:
     # ---- rendering
     def case_to_val(self, c):
         if c['k'] == 0: return [0, c['flags'], c['code'], c['data']]
-        if c['k'] == 1: return [1, c['api']]
+        if c['k'] == 1:
+            x = c['api']
+            if x[0] == 9 and x[1] and x[1][0] == 'rep':
+                x = [9, [x[1][1]] * x[1][2]]
+            return [1, x]
         raise ValueError(c)
 
     def case_to_coq(self, c):
